@@ -12,9 +12,18 @@ Inside/outside is computed here by a flood fill from the board's surroundings on
 coordinates, segments at the midpoints), independent of the parity construction used by the solver.
 
 Key order: the BoolGridFrame(h-1, w-1) edges (horizontal row-major, then vertical row-major); bools.
+
+Large family (shape descriptors ("large", h, w)): boards beyond the reach of base.loops() use the exact frontier enumerator
+slitherlink.enum_loops(), pruned per clue cell (no line on it; the segment count of an arrow compared once all segments of
+its ray are decided, and cut as soon as it is exceeded or out of reach) with the inside / outside marks checked by the same
+flood fill on every complete loop; instances: complete clue sets of seed loops (every cell off the loop becomes a clue with
+an arrow - directions rotating through ^ v < > - its true count and its true inside / outside mark), thinned / altered
+variants (count +1 / -1, one mark flipped, marks dropped), clue-free boards, clues on the last row / column, and two-digit
+counts on boards with a side of 13 and more.
 """
 
 from . import base
+from .slitherlink import enum_loops, edge_ids, vertex_edges, loop_count, all_loops, seed_loops, dense_family, uniq, within_budget
 
 ARROWS = "^v<>"
 _CACHE = {}
@@ -54,14 +63,172 @@ def _cands(h, w):
     return _CACHE[(h, w)]
 
 
+OLD_PATH_MAX_VERTICES = 20  # boards of the small ladder keep the original oracle (base.loops + filter)
+SOLUTION_CAP = 400000
+_LARGE = {}
+
+
+def _ray(h, w, y, x, d):
+    """Key indices of the unit segments of the clue's row / column that lie in direction d of the cell (y, x)."""
+    H, V, m = edge_ids(h, w)
+    if d == "^":
+        return [V(yy, x) for yy in range(0, y)]
+    if d == "v":
+        return [V(yy, x) for yy in range(y, h - 1)]
+    if d == "<":
+        return [H(y, xx) for xx in range(0, x)]
+    return [H(y, xx) for xx in range(x, w - 1)]
+
+
+def _checks(h, w, arrow, inside):
+    ve = vertex_edges(h, w)
+    watches = []
+    marks = []
+    for y in range(h):
+        for x in range(w):
+            a = arrow[y][x]
+            if a == "..":
+                continue
+            own = [e for e in ve[y * w + x] if e is not None]
+            if own:
+                watches.append((own, lambda E, own=own: not any(E[e] for e in own)))
+            if a[0] in ARROWS:
+                ray = _ray(h, w, y, x, a[0])
+                n = int(a[1:])
+
+                def count_ok(E, ray=ray, n=n):
+                    used = free = 0
+                    for e in ray:
+                        if E[e] is None:
+                            free += 1
+                        elif E[e]:
+                            used += 1
+                    return used <= n <= used + free
+
+                if ray:
+                    watches.append((ray, count_ok))
+                elif n != 0:
+                    watches.append(([], None))  # a count > 0 on an empty ray: no answer at all
+            if inside[y][x] is not None:
+                marks.append(((y, x), inside[y][x]))
+    return watches, marks
+
+
+def _final(h, w, marks):
+    if not marks:
+        return None
+
+    def ok(loop):
+        outside = _outside_cells(h, w, base.loop_degree_info(h, w, loop))
+        return all(((c in outside) != want) for c, want in marks)
+
+    return ok
+
+
+def clues_of(h, w, loop, rot=0):
+    """Complete clue set of a loop: every cell off the loop, with an arrow (direction number (index + rot) mod 4 of ^ v < >),
+    the true segment count of that ray and the true inside (True) / outside (False) mark; values are (arrow string, mark)."""
+    info = base.loop_degree_info(h, w, loop)
+    outside = _outside_cells(h, w, info)
+    out = {}
+    k = 0
+    for y in range(h):
+        for x in range(w):
+            if info[(y, x)]:
+                continue
+            d = ARROWS[(k + rot) % 4]
+            k += 1
+            out[(y, x)] = (d + str(sum(1 for e in _ray(h, w, y, x, d) if loop[e])), (y, x) not in outside)
+    return out
+
+
+def _large_instances(h, w, thorough):
+    key = (h, w, thorough)
+    if key in _LARGE:
+        return _LARGE[key]
+
+    def prob(clues):
+        return {
+            "height": h,
+            "width": w,
+            "arrow": [[clues[(y, x)][0] if (y, x) in clues else ".." for x in range(w)] for y in range(h)],
+            "inside": [[clues[(y, x)][1] if (y, x) in clues else None for x in range(w)] for y in range(h)],
+        }
+
+    def keep(clues):
+        clues = {c: v for c, v in clues.items() if 0 <= c[0] < h and 0 <= c[1] < w}
+        p = prob(clues)
+        if not enumerable:
+            watches, marks = _checks(h, w, p["arrow"], p["inside"])
+            if any(fn is None for e, fn in watches) or not within_budget(h, w, (), watches, _final(h, w, marks)):
+                return
+        out.append(p)
+
+    out = []
+    # complete enumeration with the flood fill on every loop is affordable up to about 25000 loops (5 x 5, 4 x 7, 3 x 11)
+    enumerable = loop_count(h, w) is not None and loop_count(h, w) <= 25000
+    far = (h - 1, w - 1)
+    line = min(h, w) == 1
+    if enumerable:
+        light = [{}, {far: ("??", False)}, {far: ("<0", None)}, {(h // 2, w // 2): ("??", True)}, {(h - 1, w // 2): ("??", True)}]
+        light += [{far: ("^%d" % max(h - 2, 0), None)}, {(h - 1, 0): (">%d" % max(w - 2, 0), False)}, {(h // 2, w - 1): ("<2", None), (h - 1, w // 2): ("^2", None)}]
+        if thorough:
+            light += [{far: ("<1", True)}, {(0, 0): ("v1", None), far: ("^1", None)}, {(h - 1, x): ("^1", False) for x in range(0, w, 2)}]
+        for clues in light if thorough else (light[:6] if h == w else light[:4]):
+            keep(clues)
+    # two-digit counts: rays of 12 and more segments along the long side, from the first cell and from the far corner
+    L = max(h, w) - 2  # longest possible count: the segment next to the clue cell is never used
+    if L >= 10:
+        fw, bw = (">", "<") if w > h else ("v", "^")
+        two = [{(0, 0): (fw + str(L), None)}, {far: (bw + str(L), False)}, {(0, 0): (fw + "10", None)}, {far: (bw + str(L + 1), None)}]
+        two += [{(0, 0): (fw + str(L), None), far: (bw + "10", None)}, {(0, 0): (fw + str(L + 2), None)}, {far: (bw + "12", None), (0, 0): ("??", False)}]
+        for clues in two if thorough else two[: 3 if line else 4]:
+            keep(clues)
+    if enumerable:
+        seeds = seed_loops(h, w, 1, longest=thorough)
+    else:
+        # a long seed loop leaves few cells off the loop, hence few clues and far too many answers: of six seed loops take
+        # the shortest; the derived instances are kept when their exact enumeration stays within the node budget
+        seeds = sorted(seed_loops(h, w, 6), key=lambda g: sum(g))[: 2 if thorough else 1]
+    for j, g in enumerate(seeds):
+        full = clues_of(h, w, g, rot=j)
+
+        def bump(v, dl, c):
+            n = int(v[0][1:]) + dl
+            return (v[0][0] + str(n), v[1]) if n >= 0 else None
+
+        fam = dense_family(full, h, w, bump, thorough)
+        if not thorough and h != w:
+            fam = fam[:2] + fam[3:5]
+        for clues in fam:
+            keep(clues)
+        ks = sorted(full)
+        if ks:
+            # marks: one flipped (last clue / first clue), all dropped, only the marks (no arrows) on every 2nd clue
+            extra = [dict(full, **{}) for _ in range(4)]
+            extra[0][ks[-1]] = (full[ks[-1]][0], not full[ks[-1]][1])
+            extra[1] = {c: (v[0], None) for c, v in full.items()}
+            extra[2] = {c: ("??", v[1]) for i, (c, v) in enumerate(sorted(full.items())) if i % 2 == 0}
+            extra[3][ks[0]] = (full[ks[0]][0], not full[ks[0]][1])
+            for clues in extra if thorough else extra[: 2 if h == w else 1]:
+                keep(clues)
+    out = uniq(out)
+    _LARGE[key] = out
+    return out
+
+
 class CastleWall(base.Rule):
     name = "castle_wall"
 
     def shapes(self, tier):
         s = [(1, 1), (1, 2), (2, 1), (1, 3), (3, 1), (2, 2), (2, 3), (3, 2), (3, 3)]
         if tier == "quick":
-            return s  # 3x4 / 4x3 cost ~20 s CPU each (469 layouts of ~40 ms); they are in the thorough ladder
-        return s + [(1, 4), (4, 1), (2, 4), (4, 2), (3, 4), (4, 3), (4, 4), (3, 5), (5, 3)]
+            # 3x4 / 4x3 cost ~20 s CPU each (469 layouts of ~40 ms); they are in the thorough ladder
+            return s + [("large", h, w) for h, w in [(5, 5), (8, 8), (3, 10), (10, 3), (2, 13), (13, 2), (1, 13), (13, 1)]]
+        s = s + [(1, 4), (4, 1), (2, 4), (4, 2), (3, 4), (4, 3), (4, 4), (3, 5), (5, 3)]
+        large = [(5, 5), (8, 8), (3, 10), (10, 3), (2, 13), (13, 2), (1, 13), (13, 1)]
+        large += [(6, 6), (7, 7), (4, 7), (7, 4), (5, 6), (6, 5), (10, 10), (6, 9), (9, 6), (4, 12), (12, 4), (3, 12), (12, 3), (2, 15), (15, 2)]
+        return s + [("large", h, w) for h, w in large]
 
     def alphabet(self, shape):
         nums = (0, 1, 2) if max(shape) >= 4 else (0, 1)
@@ -70,6 +237,10 @@ class CastleWall(base.Rule):
         return [a + "/" + s for a in arrows for s in "nio"]
 
     def instances(self, shape, cap):
+        if shape[0] == "large":
+            for p in _large_instances(shape[1], shape[2], cap > 1000):
+                yield p
+            return
         h, w = shape
         lays, k = base.layouts(h * w, "../n", self.alphabet(shape), cap)
         mark = {"n": None, "i": True, "o": False}
@@ -85,6 +256,21 @@ class CastleWall(base.Rule):
         return is_sat, base.sols_of(frame)
 
     def readings(self, p):
+        if p["height"] * p["width"] > OLD_PATH_MAX_VERTICES:
+            return [self.readings_large(p)]
+        return self.readings_small(p)
+
+    def readings_large(self, p):
+        h, w = p["height"], p["width"]
+        watches, marks = _checks(h, w, p["arrow"], p["inside"])
+        if any(fn is None for e, fn in watches):
+            return []
+        if not watches and loop_count(h, w) is not None:
+            fin = _final(h, w, marks)
+            return [t for t in all_loops(h, w) if fin is None or fin(t)]
+        return enum_loops(h, w, (), watches, cap=SOLUTION_CAP, final=_final(h, w, marks))
+
+    def readings_small(self, p):
         h, w, arrow, inside = p["height"], p["width"], p["arrow"], p["inside"]
         clues = [(y, x) for y in range(h) for x in range(w) if arrow[y][x] != ".."]
         clueset = frozenset(clues)
@@ -122,3 +308,49 @@ class CastleWall(base.Rule):
 
 
 RULE = CastleWall()
+
+
+def selftest():
+    """The pruned large-board oracle against the original filter oracle on the small ladder: all layouts with one clue
+    (two on the smallest boards) over arrows with counts 0..3, '??' and the three marks, and the dense families (complete
+    clue sets, thinned, altered, marks flipped / dropped) of every loop of 4 x 4, 3 x 5, 5 x 3 and every 5th of 4 x 5."""
+    r = RULE
+    n = 0
+    alphabet = [a + "/" + s for a in ["??"] + [d + str(k) for d in ARROWS for k in (0, 1, 2, 3)] for s in "nio"]
+    mark = {"n": None, "i": True, "o": False}
+    for h, w in [(1, 1), (1, 3), (3, 1), (2, 2), (2, 3), (3, 3), (3, 4), (4, 3), (4, 4), (3, 5), (5, 3)]:
+        lays, k = base.layouts(h * w, "../n", alphabet, 3000)
+        for cells in lays:
+            arrow = [c.split("/")[0] for c in cells]
+            inside = [mark[c.split("/")[1]] for c in cells]
+            p = {"height": h, "width": w, "arrow": base.grid(arrow, h, w), "inside": base.grid(inside, h, w)}
+            assert sorted(r.readings_small(p)[0]) == sorted(r.readings_large(p)), p
+            n += 1
+    for h, w, step in [(4, 4, 1), (3, 5, 1), (5, 3, 1), (4, 5, 5)]:
+        for j, g in enumerate(base.loops(h, w)[1::step]):
+            full = clues_of(h, w, g, rot=j)
+
+            def bump(v, dl, c):
+                k = int(v[0][1:]) + dl
+                return (v[0][0] + str(k), v[1]) if k >= 0 else None
+
+            fam = dense_family(full, h, w, bump, True)
+            ks = sorted(full)
+            if ks:
+                d = dict(full)
+                d[ks[-1]] = (full[ks[-1]][0], not full[ks[-1]][1])
+                fam += [d, {c: (v[0], None) for c, v in full.items()}, {c: ("??", v[1]) for c, v in full.items()}]
+            for clues in fam:
+                p = {
+                    "height": h,
+                    "width": w,
+                    "arrow": [[clues[(y, x)][0] if (y, x) in clues else ".." for x in range(w)] for y in range(h)],
+                    "inside": [[clues[(y, x)][1] if (y, x) in clues else None for x in range(w)] for y in range(h)],
+                }
+                a = r.readings_small(p)[0]
+                assert sorted(a) == sorted(r.readings_large(p)), p
+                if clues == full:
+                    assert g in a
+                n += 1
+    return n
+
